@@ -76,7 +76,14 @@ class Env:
 
         self.m = g2.as_model(sc["model"])
         self.out_names = sc["schema_mode"] == "prog-out-names"
-        if sc["schema_mode"] == "sdl":
+        self.typing = sc.get("typing", "resolver")
+        self.default_typing = lambda name, value, info: (
+            (value.get("__tn") or value.get("__typename")) if isinstance(value, dict) else None) == name
+        self.typing_hook = {"fn": self.default_typing}
+        if sc.get("typing") == "is_type_of":
+            self.schema = g2.build(self.m, use_out_names=self.out_names, is_type_of=lambda name: (
+                lambda value, info: self.typing_hook["fn"](name, value, info)))
+        elif sc["schema_mode"] == "sdl":
             self.schema = build_schema(g2.to_sdl(self.m))
         else:
             self.schema = g2.build(self.m, use_out_names=self.out_names)
